@@ -135,8 +135,12 @@ def _run(case, ec, term, dev, dev2):
                     what=f"{what}; channel {case['channel']}, init delay "
                          f"{case['init_delay']}, events {events[-14:]}")
 
+    # idle cycles at the end, enough to drain what the application wrote
+    # (22 bytes per accepted chunk, a chunk every other cycle)
+    backlog = sum(len(c) for cyc in case["cycles"] for c in cyc["app"] or [])
     cycles = list(case["cycles"]) + [
-        {"app": [], "term": None, "tx_delay": 0, "ack_check": True}] * 8
+        {"app": [], "term": None, "tx_delay": 0, "ack_check": True}] \
+        * (8 + 3 * (backlog // 22 + 2))
     for n, cyc in enumerate(cycles):
         # ---- application writes
         for chunk in cyc["app"] or []:
